@@ -295,6 +295,11 @@ fn prop(t: &mut Tape, st: &mut Stats) -> Result<(), Failure> {
     cfg.f11_safe = false;
     cfg.decor = t.weighted(&[1, 4, 5]) as u8;
     cfg.budget = 8 + t.below(40);
+    if t.chance(1, 12) {
+        // wide documents (dozens of tables)
+        cfg.many_sections = true;
+        cfg.budget = 250 + t.below(250);
+    }
     cfg.plain_keys = t.chance(1, 3);
     let r = gen_doc(t, &cfg);
     st.eval();
